@@ -77,9 +77,11 @@ package state
 //@ func (*journal).append
 //@   props C11
 //@   requires j != nil && entry != nil
+//@   invariant-assumed j.dirties != nil
 //@   nosafety
 //@   assigns  j.entries, j.entries[*], j.dirties[*]
 //@   ensures  [entry-appended-last] len(j.entries) == old(len(j.entries)) + 1 && j.entries[len(j.entries)-1] == entry
+//@   ensures  [appended-entry-marks-its-account-dirty-once] dirtVal(j, anyAddr()) == old(dirtVal(j, anyAddr())) + ite(dirtHas(entry) && dirtAddr(entry) == anyAddr(), 1, 0)
 //@   ensures  [earlier-entries-kept] forall(a, 0, old(len(j.entries)), j.entries[a] == old(j.entries[a]))
 
 // ----- journal entries restore what they recorded
